@@ -1,5 +1,5 @@
 (* Proofs/Mask.v -- lemmas about Model/Mask.v (property C09). *)
-From Coq Require Import QArith ZArith List Bool Arith Lia Lqa.
+From Coq Require Import QArith Qabs ZArith List Bool Arith Lia Lqa.
 From Ropt Require Import Base.Num Base.ListX Gen.Generated Model.Bounds Model.Mask Proofs.Bounds.
 Import ListNotations.
 Open Scope Q_scope.
@@ -261,4 +261,113 @@ Proof.
   - rewrite map_map. induction Hfree as [|f fr Hf _ IH]; cbn; [reflexivity|]. rewrite IH. f_equal.
     apply (gather_complete_opt mask n); assumption.
   - induction Hfree as [|f fr Hf _ IH]; cbn; constructor; [|exact IH]. apply complete_opt_length; assumption.
+Qed.
+
+(* ==== what the samplers build together; the evaluator's function-value cache ====================== *)
+(* ---- positions no sampler owns ------------------------------------------------------------------ *)
+Lemma map2_length {A B C} (f : A -> B -> C) a b : length a = length b -> length (map2 f a b) = length a.
+Proof.
+  revert b. induction a as [|x a IH]; intros b H; [reflexivity|]. destruct b as [|y b]; [discriminate|].
+  cbn in *. f_equal. apply IH. lia.
+Qed.
+Lemma mask_zero_at m full i :
+  (i < length full)%nat -> nth_error m i = Some false -> nth_error (mask_zero (Some m) full) i = Some 0.
+Proof.
+  intros Hl Hm. cbn. rewrite map2_nth, Hm.
+  destruct (nth_error full i) as [s|] eqn:E; [reflexivity|]. apply nth_error_None in E. lia.
+Qed.
+Lemma zero3_at m full r p i mat row :
+  nth_error full r = Some mat -> nth_error mat p = Some row -> (i < length row)%nat ->
+  nth_error m i = Some false -> nth3 (zero3 (Some m) full) r p i = Some 0.
+Proof.
+  intros Hr Hp Hl Hm. unfold nth3, zero3. rewrite nth_error_map, Hr. cbn. rewrite nth_error_map, Hp. cbn.
+  apply mask_zero_at; assumption.
+Qed.
+
+(* a position that [owned] marks false belongs to the variable set of no sampler that runs *)
+Lemma unowned_sampler_mask gs m i k :
+  match gs with Some g => length g = length m | None => True end ->
+  nth_error (owned gs (Some m) (length m)) i = Some false ->
+  In k (sampler_order gs) ->
+  exists sm, sampler_mask k gs (Some m) = Some sm /\ nth_error sm i = Some false.
+Proof.
+  intros Hl Ho Hk. destruct gs as [g|]; cbn in *.
+  - eexists. split; [reflexivity|]. rewrite map2_nth in Ho. rewrite map2_nth, nth_error_map.
+    destruct (nth_error m i) as [b|]; [|cbn in Ho; discriminate].
+    destruct (nth_error g i) as [z|]; [|cbn in Ho; discriminate].
+    cbn in *. injection Ho as Ho. f_equal. destruct b; [|reflexivity]. cbn in *.
+    apply negb_false_iff, Z.ltb_lt in Ho. apply first_appearance_nonneg in Hk as [Hk _].
+    apply Z.eqb_neq. lia.
+  - exists m. split; [reflexivity | exact Ho].
+Qed.
+(* masked-out positions are never owned *)
+Lemma masked_unowned gs m i :
+  match gs with Some g => length g = length m | None => True end ->
+  nth_error m i = Some false -> nth_error (owned gs (Some m) (length m)) i = Some false.
+Proof.
+  intros Hl Hm. destruct gs as [g|]; cbn; [|exact Hm]. rewrite map2_nth, Hm.
+  destruct (nth_error g i) as [z|] eqn:E; [reflexivity|].
+  apply nth_error_None in E. assert (i < length m)%nat by (apply nth_error_Some; congruence). lia.
+Qed.
+
+(* what _perturb_variables builds from the samplers, at a position no sampler owns: the current value, for
+   every boundary type, provided that value is inside its bounds *)
+Theorem run_samplers_unowned gs m scripts ts lbs ubs x mags r p i t l u xv mg :
+  sampler_order gs <> [] ->
+  match gs with Some g => length g = length m | None => True end ->
+  (forall k, In k (sampler_order gs) -> exists s mat row,
+      nth_error scripts (Z.to_nat k) = Some s /\ nth_error s r = Some mat /\ nth_error mat p = Some row /\
+      length row = length m) ->
+  nth_error (owned gs (Some m) (length m)) i = Some false ->
+  nth_error ts i = Some t -> nth_error lbs i = Some l -> nth_error ubs i = Some u ->
+  nth_error x i = Some xv -> nth_error mags i = Some mg -> inside l u xv ->
+  exists q, nth3 (perturb ts lbs ubs x mags (run_samplers gs (Some m) scripts)) r p i = Some q /\ q == xv.
+Proof.
+  intros Hne Hl Hs Ho Ht Hlb Hub Hx Hm Hin. unfold run_samplers.
+  apply (perturb_unsampled ts lbs ubs x mags _ r p i t l u xv mg); try assumption.
+  - destruct (sampler_order gs); [congruence | discriminate].
+  - apply Forall_forall. intros a Ha. apply in_map_iff in Ha as [k [<- Hk]].
+    destruct (unowned_sampler_mask gs m i k Hl Ho Hk) as [sm [-> Hsm]].
+    destruct (Hs k Hk) as [s [mat [row [H1 [H2 [H3 H4]]]]]].
+    rewrite (nth_error_nth _ _ _ H1).
+    apply (zero3_at sm s r p i mat row H2 H3); [|exact Hsm].
+    rewrite H4. destruct gs as [g|]; cbn in Ho.
+    + rewrite <- (map2_length (fun (b : bool) z => b && negb (z <? 0)%Z) m g) by lia.
+      apply nth_error_Some. congruence.
+    + apply nth_error_Some. congruence.
+Qed.
+
+(* ---- the evaluator's function-value cache ------------------------------------------------------- *)
+Lemma same_point_nth a b i x y :
+  same_point a b = true -> nth_error a i = Some x -> nth_error b i = Some y -> Qabs (x - y) <= cache_atol.
+Proof.
+  unfold same_point. revert b i. induction a as [|x0 a IH]; intros b i H Ha Hb; [destruct i; discriminate|].
+  destruct b as [|y0 b]; [discriminate|]. cbn in H. apply andb_prop in H as [H1 H2].
+  destruct i as [|i]; cbn in *.
+  - injection Ha as <-. injection Hb as <-. apply Qleb_le, H1.
+  - apply (IH b i); assumption.
+Qed.
+(* a gradient is computed from cached function values only for a gradient-only request of one vector that coincides
+   with the cached vector on EVERY position -- the fixed ones included -- and the cache is kept; in all other cases the
+   function values are evaluated afresh at the requested vector *)
+Theorem evaluate_cached_sound cache f g vs v c' :
+  evaluate cache f g vs = (EvGradCached v, c') ->
+  f = false /\ g = true /\ vs = [v] /\ c' = cache /\
+  exists c, cache = Some c /\ length c = length v /\
+            forall i x y, nth_error c i = Some x -> nth_error v i = Some y -> Qabs (x - y) <= cache_atol.
+Proof.
+  unfold evaluate. intros H. destruct (f && negb g) eqn:Efg; [discriminate|].
+  destruct g; [|discriminate]. cbn [negb] in H.
+  destruct vs as [|v0 [|v1 vs]]; try discriminate. destruct cache as [c|]; [|discriminate].
+  destruct (negb f && same_point c v0) eqn:E; [|discriminate]. injection H as <- <-.
+  apply andb_prop in E as [Ef Es]. apply negb_true_iff in Ef. subst f. repeat split; try reflexivity.
+  exists c. split; [reflexivity|]. split; [apply (forallb2_length _ _ _ Es)|].
+  intros i x y. apply same_point_nth, Es.
+Qed.
+Theorem evaluate_fresh cache f g v :
+  g = true -> (f = true \/ match cache with Some c => same_point c v = false | None => True end) ->
+  evaluate cache f g [v] = (EvBoth v, None).
+Proof.
+  intros -> H. unfold evaluate. rewrite andb_false_r. cbn [negb]. destruct cache as [c|]; [|reflexivity].
+  destruct H as [->|H]; [reflexivity|]. rewrite H, andb_false_r. reflexivity.
 Qed.
